@@ -206,8 +206,13 @@ def edit(rng, sheet):
             elif k == 5:
                 t = rng.choice(['@variables { ev: 1px }', '@namespace eq "http://e";', '@import "e.css" print;', '@charset "utf-8";',
                                 '@page :left { margin: 1cm }', '@font-face { font-family: e }', '/*e*/', '@media tv { e { left: 0 } }'])
-                sheet.add(t)
-                ops.append('add ' + t.split(' ')[0])
+                if rng.random() < 0.5:
+                    sheet.add(t)
+                    ops.append('add ' + t.split(' ')[0])
+                else:   # at an explicit index: accepted only where a reparse keeps it
+                    at = rng.randrange(sheet.cssRules.length + 1)
+                    ops.append('insertRule %s at %d' % (t.split(' ')[0], at))
+                    sheet.insertRule(t, at)
         except Exception as e:
             if not isinstance(e, __import__('xml.dom').dom.DOMException):
                 raise
